@@ -26,8 +26,8 @@ const SPEC: Spec = Spec {
         "std DefaultHasher (SipHash with fixed keys) stands for 'hash identically'",
         "quickcheck Gen::new (entropy-seeded) is not called; Gen::from_size_and_seed is enumerated instead",
     ],
-    bounds_quick: "BigInt and BigUint models: depth 3 from all initial constructions (13 values x 5 construction ways (incl. small and large slack capacity) + inconsistent sign/magnitude requests), ~75 actions per state; generators: arbitrary over all byte strings {00,01,ff}^<=8, quickcheck (size<=8, seed<1024), shrink of the pool",
-    bounds_thorough: "BigInt and BigUint models: depth 5 (digit cap 20; ~4.6*10^7 states, ~8 min, 4.3 GB); generators: arbitrary over {00,01,ff}^<=10, quickcheck (size<=8, seed<4096)",
+    bounds_quick: "BigInt and BigUint models: depth 3 from all initial constructions (13 values x 5 construction ways (incl. small and large slack capacity) + inconsistent sign/magnitude requests), ~75 actions per state; generators: arbitrary over all byte strings {00,01,ff}^<=8, quickcheck (size<=8, seed<1024), shrink of the pool, serde_json sequences {0,1,2^32-1}^<=6 x signs, rand word streams {0,1,2^31,2^32-1}^<=3 x bit sizes/bounds; constructors in 13 radices x zero paddings up to 130 digits",
+    bounds_thorough: "BigInt and BigUint models: depth 5 (digit cap 20; ~4.6*10^7 states, ~8 min, 4.3 GB); generators: arbitrary over {00,01,ff}^<=10, quickcheck (size<=8, seed<4096), serde_json sequences ^<=8, rand word streams ^<=5",
     hang_secs: 120,
     probes: None,
     max_workers: 1,
@@ -1082,6 +1082,173 @@ fn run_generators(ctx: &mut Ctx) {
         }
         ctx.nontrivial(distinct.len() as u64);
         ctx.sample(|| format!("arbitrary::Arbitrary for BigUint/BigInt on every byte string over {{00,01,ff}} of length <= {}: {} distinct values", maxlen, distinct.len()));
+    }
+    // deserializer: every JSON u32 sequence over {0,1,2^32-1} up to a length (trailing zeros, odd lengths), with every
+    // sign token -1/0/1 for BigInt -- whatever value results must be indistinguishable from a canonical object of it
+    if ctx.space("G-serde") && ctx.mine(0) {
+        let maxlen = ctx.tier.pick(6usize, 8usize);
+        let sig = [0u32, 1, u32::MAX];
+        let mut nz = 0u64;
+        for len in 0..=maxlen {
+            let mut idx = vec![0usize; len];
+            loop {
+                let w: Vec<u32> = idx.iter().map(|&i| sig[i]).collect();
+                let seq = format!("[{}]", w.iter().map(|d| d.to_string()).collect::<Vec<_>>().join(","));
+                ctx.case();
+                ctx.calls(1);
+                if w.last() == Some(&0) {
+                    nz += 1;
+                }
+                match guard(|| serde_json::from_str::<BigUint>(&seq)) {
+                    Ok(Ok(u)) => {
+                        ctx.compared(1);
+                        let v = nat_of(&u);
+                        if let Some(wn) = observe_uint(&u, &v, &refs_u) {
+                            ctx.viol(format!("serde BigUint json={}", seq), &wn, vec![seq.clone()], "canonical value".into(), wn.clone());
+                        }
+                    }
+                    other => ctx.viol(format!("serde BigUint json={}", seq), "valid u32 sequence rejected or panicked", vec![seq.clone()], "a value".into(), format!("{:?}", other.map(|r| r.map(|_| ()).map_err(|e| e.to_string())))),
+                }
+                for sg in [-1i32, 0, 1] {
+                    let txt = format!("[{},{}]", sg, seq);
+                    ctx.calls(1);
+                    match guard(|| serde_json::from_str::<BigInt>(&txt)) {
+                        Ok(Ok(x)) => {
+                            ctx.compared(1);
+                            let v = int_of(&x);
+                            if let Some(wn) = observe_int(&x, &v, &refs_i) {
+                                ctx.viol(format!("serde BigInt json={}", txt), &wn, vec![txt.clone()], "canonical value".into(), wn.clone());
+                            }
+                        }
+                        other => ctx.viol(format!("serde BigInt json={}", txt), "valid (sign, sequence) pair rejected or panicked", vec![txt.clone()], "a value".into(), format!("{:?}", other.map(|r| r.map(|_| ()).map_err(|e| e.to_string())))),
+                    }
+                }
+                let mut p = 0;
+                while p < len {
+                    idx[p] += 1;
+                    if idx[p] < sig.len() {
+                        break;
+                    }
+                    idx[p] = 0;
+                    p += 1;
+                }
+                if p == len {
+                    break;
+                }
+            }
+        }
+        ctx.nontrivial(nz);
+        ctx.sample(|| format!("serde_json: every u32 sequence over {{0,1,2^32-1}} of length <= {} as BigUint and with sign tokens -1/0/1 as BigInt", maxlen));
+    }
+    // random generators: every word stream over a 4-letter alphabet up to a length x every bit size / bound family
+    if ctx.space("G-rand") && ctx.mine(0) {
+        use num_bigint::{RandBigInt, RandomBits, UniformBigInt, UniformBigUint};
+        use rand::distributions::uniform::UniformSampler;
+        use rand::distributions::Distribution;
+        struct StreamRng {
+            words: Vec<u32>,
+            pos: usize,
+        }
+        impl StreamRng {
+            fn word(&mut self) -> u32 {
+                let w = self.words.get(self.pos).copied().unwrap_or(0);
+                self.pos += 1;
+                w
+            }
+        }
+        impl rand::RngCore for StreamRng {
+            fn next_u32(&mut self) -> u32 {
+                self.word()
+            }
+            fn next_u64(&mut self) -> u64 {
+                let lo = self.word() as u64;
+                let hi = self.word() as u64;
+                lo | (hi << 32)
+            }
+            fn fill_bytes(&mut self, dest: &mut [u8]) {
+                for chunk in dest.chunks_mut(4) {
+                    let w = self.word().to_le_bytes();
+                    chunk.copy_from_slice(&w[..chunk.len()]);
+                }
+            }
+            fn try_fill_bytes(&mut self, dest: &mut [u8]) -> Result<(), rand::Error> {
+                self.fill_bytes(dest);
+                Ok(())
+            }
+        }
+        let maxlen = ctx.tier.pick(3usize, 5usize);
+        let sig = [0u32, 1, 0x8000_0000, u32::MAX];
+        let bounds: Vec<Nat> = vec![Nat::one(), Nat::from_u64(2), Nat::from_u64(1 << 32), Nat::from_digits(&[alpha::M]), Nat::from_digits(&[0, 1]), Nat::from_digits(&[1, 1]), Nat::from_digits(&[0, 0, 1]), Nat::from_digits(&[alpha::M, alpha::M, 1])];
+        let mut distinct = std::collections::HashSet::new();
+        for len in 0..=maxlen {
+            let mut idx = vec![0usize; len];
+            loop {
+                let w: Vec<u32> = idx.iter().map(|&i| sig[i]).collect();
+                ctx.case();
+                let mut outs: Vec<(String, BigInt, bool)> = Vec::new();
+                let r = guard(|| {
+                    let mut o: Vec<(String, BigInt, bool)> = Vec::new();
+                    for bits in (0..=130u64).chain([191, 192, 193, 256, 257]) {
+                        let mut g = StreamRng { words: w.clone(), pos: 0 };
+                        o.push((format!("gen_biguint({})", bits), BigInt::from(g.gen_biguint(bits)), true));
+                        let mut g = StreamRng { words: w.clone(), pos: 0 };
+                        o.push((format!("gen_bigint({})", bits), g.gen_bigint(bits), false));
+                        let mut g = StreamRng { words: w.clone(), pos: 0 };
+                        let u: BigUint = RandomBits::new(bits).sample(&mut g);
+                        o.push((format!("RandomBits<BigUint>({})", bits), BigInt::from(u), true));
+                        let mut g = StreamRng { words: w.clone(), pos: 0 };
+                        o.push((format!("RandomBits<BigInt>({})", bits), RandomBits::new(bits).sample(&mut g), false));
+                    }
+                    for b in &bounds {
+                        let bu_ = bu_nat(b);
+                        let bi_ = BigInt::from(bu_.clone());
+                        let mut g = StreamRng { words: w.clone(), pos: 0 };
+                        o.push((format!("gen_biguint_below({})", b.to_hex()), BigInt::from(g.gen_biguint_below(&bu_)), true));
+                        let mut g = StreamRng { words: w.clone(), pos: 0 };
+                        o.push((format!("gen_biguint_range(1,{}+1)", b.to_hex()), BigInt::from(g.gen_biguint_range(&BigUint::from(1u32), &(&bu_ + 1u32))), true));
+                        let mut g = StreamRng { words: w.clone(), pos: 0 };
+                        o.push((format!("gen_bigint_range(-{0},{0})", b.to_hex()), g.gen_bigint_range(&-&bi_, &bi_), false));
+                        let mut g = StreamRng { words: w.clone(), pos: 0 };
+                        o.push((format!("Uniform<BigUint>(0,{})", b.to_hex()), BigInt::from(UniformBigUint::new(BigUint::from(0u32), bu_.clone()).sample(&mut g)), true));
+                        let mut g = StreamRng { words: w.clone(), pos: 0 };
+                        o.push((format!("Uniform<BigInt>[-{0},{0}]", b.to_hex()), UniformBigInt::new_inclusive(-&bi_, bi_.clone()).sample(&mut g), false));
+                    }
+                    o
+                });
+                match r {
+                    Ok(o) => outs = o,
+                    Err(m) => ctx.viol(format!("rand generators words={:x?}", w), "generator panicked", vec![format!("{:x?}", w)], "values".into(), m),
+                }
+                for (name, x, also_uint) in &outs {
+                    ctx.calls(1);
+                    ctx.compared(1);
+                    let v = int_of(x);
+                    distinct.insert(v.to_hex());
+                    if let Some(wn) = observe_int(x, &v, &refs_i) {
+                        ctx.viol(format!("rand {} words={:x?}", name, w), &wn, vec![format!("{:x?}", w)], "canonical value".into(), wn.clone());
+                    }
+                    if *also_uint {
+                        if let Some(wn) = observe_uint(x.magnitude(), &v.mag, &refs_u) {
+                            ctx.viol(format!("rand-uint {} words={:x?}", name, w), &wn, vec![format!("{:x?}", w)], "canonical value".into(), wn.clone());
+                        }
+                    }
+                }
+                let mut p = 0;
+                while p < len {
+                    idx[p] += 1;
+                    if idx[p] < sig.len() {
+                        break;
+                    }
+                    idx[p] = 0;
+                    p += 1;
+                }
+                if p == len {
+                    break;
+                }
+            }
+        }
+        ctx.nontrivial(distinct.len() as u64);
+        ctx.sample(|| format!("rand: every word stream over {{0,1,2^31,2^32-1}} of length <= {} (then zeros) x bit sizes 0..=130,191..193,256,257 x gen_biguint/gen_bigint/RandomBits, 8 bounds x below/range/Uniform: {} distinct values", maxlen, distinct.len()));
     }
     if ctx.space("G-quickcheck") && ctx.mine(0) {
         use quickcheck::{Arbitrary, Gen};
